@@ -216,8 +216,9 @@ func runC13(cfg *vh.Config) error {
 		for _, e := range edits {
 			es = append(es, e.Coq)
 		}
-		cf.Terms = append(cf.Terms, fmt.Sprintf("CEdit\n   %s\n   [%s]\n   %s\n   %s %s %s\n   %s\n   %s", b0.Coq(), strings.Join(es, ";\n    "), b1.Coq(), j5sgen.S(pkg),
-			vh.BoolTerm(g0.ok), vh.BoolTerm(g1.ok), filesCoq(g0.files), filesCoq(g1.files)))
+		okall0, okall1 := acceptsAll(b0, t0, pkg, g0.ok), acceptsAll(b1, t1, pkg, g1.ok)
+		cf.Terms = append(cf.Terms, fmt.Sprintf("CEdit\n   %s\n   [%s]\n   %s\n   %s %s %s %s %s\n   %s\n   %s", b0.Coq(), strings.Join(es, ";\n    "), b1.Coq(), j5sgen.S(pkg),
+			vh.BoolTerm(g0.ok), vh.BoolTerm(g1.ok), vh.BoolTerm(okall0), vh.BoolTerm(okall1), filesCoq(g0.files), filesCoq(g1.files)))
 		res.Cases = append(res.Cases, vh.CaseRec{Case: i, Stream: "edit", Input: in, Impl: map[string]any{"ok_before": g0.ok, "ok_after": g1.ok, "err_after": g1.err}})
 		if len(t0) == 1 && len(res.Samples) < 2 {
 			res.Sample(in, 2)
